@@ -366,7 +366,12 @@ def normVerdict (steps : List Normalization) (pos : Position) (t : Bytes) (impl 
           (match normStepSpec n pos (Utf8.chars t) with
             | some cs => if Utf8.encodeChars cs == out then "HOLDS" else "FAILS step-effect"
             | none => "HOLDS-NA")
-        | _ => "HOLDS-NA"
+        | _ =>
+          -- a sequence is the composition of its steps in order (every step runs, also on a text
+          -- that an earlier step emptied)
+          (match steps.foldlM (fun cs n => normStepSpec n pos cs) (Utf8.chars t) with
+            | some cs => if Utf8.encodeChars cs == out then "HOLDS" else "FAILS sequence-not-composition"
+            | none => "HOLDS-NA")
   | _ => "FAILS not-total"
 
 def handleNorm (args : List String) (impl : List String) : String :=
